@@ -127,9 +127,9 @@ def generate(tier, seed):
         size = 40 if tier == "quick" else 60
         for lo, hi in chunks(0, 5 ** length, size):
             cases.append({"kind": "enum", "len": length, "lo": lo, "hi": hi, "P": P})
-    for k in range(12 if tier == "quick" else 300):
+    for k in range(12 if tier == "quick" else 1500):
         cases.append({"kind": "multi", "k": k, "n": 150})
-    nrand = 4000 if tier == "quick" else 200000
+    nrand = 4000 if tier == "quick" else 1000000
     for k, (lo, hi) in enumerate(chunks(0, nrand, 250)):
         cases.append({"kind": "rand", "k": k, "n": hi - lo})
     for k in range(6 if tier == "quick" else 60):
